@@ -284,7 +284,7 @@ func verifBuildRandom(rg *vh.Rng) *verifE2E {
 				cfg.NATType = &NATType{
 					MappingBehavior:   EndpointDependencyType(rg.Intn(3)),
 					FilteringBehavior: EndpointDependencyType(rg.Intn(3)),
-					MappingLifeTime:   time.Duration(rg.Pick(0, 0, 2000, 5000)) * time.Millisecond,
+					MappingLifeTime:   time.Duration(rg.Pick(0, 0, 10000, 50000)) * time.Millisecond,
 				}
 			}
 		}
@@ -559,9 +559,9 @@ func verifE2ECase(o *vh.Out, id string, rg *vh.Rng, given [][]string) {
 			}
 			emit([]string{"read", fmt.Sprint(h), fmt.Sprint(rg.Intn(len(v.socks[h])))})
 		case k < 92:
-			// steps end in 7 so that no sum of a few of them equals a mapping lifetime exactly (at that
-			// boundary the code's answer depends on microseconds of real time)
-			emit([]string{"adv", fmt.Sprint(rg.Pick(107, 1507, 2507, 6007, 31007))})
+			// the NATs read the real clock: steps are multiples of 20 s and lifetimes odd multiples of 10 s,
+			// so no sum of steps comes closer than 10 s to a lifetime, however slowly the machine runs
+			emit([]string{"adv", fmt.Sprint(rg.Pick(20000, 20000, 40000, 100000))})
 		case k < 95:
 			h := rg.Intn(len(v.hosts))
 			if len(v.socks[h]) == 0 {
